@@ -704,7 +704,8 @@ class Explorer:
                     return TOP
                 if loc is not None and st.store.get(loc, TOP) == TOP and loc[1] and \
                         isinstance(loc[1][-1], tuple) and loc[1][-1] in self.field_values:
-                    return self.field_values[loc[1][-1]]
+                    fv = self.field_values[loc[1][-1]]
+                    return fv(loc) if callable(fv) else fv
                 if loc is not None and loc not in st.store and isinstance(loc[0], tuple) \
                         and loc[0][0] == "G":
                     gv = self.global_load(loc[0], loc[1])
